@@ -390,6 +390,62 @@ func collect(p *pkgInfo, s Site) []found {
 	return out
 }
 
+type atomicOp struct {
+	loc, fn, op string
+	args        []string
+}
+
+// calls atomic.<Op>(&x.state, consts...) whose first argument matches the site's regexp
+func collectAtomic(p *pkgInfo, s Site) []atomicOp {
+	var out []atomicOp
+	re := regexp.MustCompile(s.Re)
+	var fre *regexp.Regexp
+	if s.Func != "" {
+		fre = regexp.MustCompile("^(" + s.Func + ")$")
+	}
+	for i, f := range p.files {
+		if s.File != "" && p.names[i] != s.File {
+			continue
+		}
+		for _, d := range f.Decls {
+			fd, ok := d.(*ast.FuncDecl)
+			if !ok || fd.Body == nil {
+				continue
+			}
+			if fre != nil && !fre.MatchString(fd.Name.Name) {
+				continue
+			}
+			ast.Inspect(fd.Body, func(n ast.Node) bool {
+				ce, ok := n.(*ast.CallExpr)
+				if !ok || len(ce.Args) == 0 {
+					return true
+				}
+				se, ok := ce.Fun.(*ast.SelectorExpr)
+				if !ok {
+					return true
+				}
+				id, ok := se.X.(*ast.Ident)
+				if !ok || id.Name != "atomic" || !re.MatchString(show(p.fset, ce.Args[0])) {
+					return true
+				}
+				op := atomicOp{loc: fmt.Sprintf("%s %s: %s", p.names[i], fd.Name.Name, show(p.fset, ce)), fn: fd.Name.Name, op: se.Sel.Name}
+				for _, a := range ce.Args[1:] {
+					if tv, ok := p.info.Types[a]; ok && tv.Value != nil {
+						if z, ok := zlit(tv.Value); ok {
+							op.args = append(op.args, "Some "+z)
+							continue
+						}
+					}
+					op.args = append(op.args, "None")
+				}
+				out = append(out, op)
+				return true
+			})
+		}
+	}
+	return out
+}
+
 func coqStr(s string) string { return "\"" + strings.ReplaceAll(s, "\"", "\"\"") + "\"" }
 
 func coqStrList(l []string) string {
@@ -467,6 +523,21 @@ func main() {
 	sitesReport := map[string]int{}
 	for _, s := range spec.Sites {
 		p := get(s.Pkg)
+		if s.Kind == "atomic" {
+			ops := collectAtomic(p, s)
+			sitesReport[s.Name] = len(ops)
+			nsites += len(ops)
+			fmt.Fprintf(&b, "(* site %s: atomic operations on /%s/ in %s %s %s *)\n", s.Name, s.Re, s.Pkg, s.File, s.Func)
+			fmt.Fprintf(&b, "Definition %s_ops : list (string * string * string * list (option Z)) := [", s.Name)
+			for i, o := range ops {
+				if i > 0 {
+					b.WriteString(";")
+				}
+				fmt.Fprintf(&b, "\n  (%s, %s, %s, [%s])", coqStr(o.loc), coqStr(o.fn), coqStr(o.op), strings.Join(o.args, "; "))
+			}
+			b.WriteString("].\n\n")
+			continue
+		}
 		fs := collect(p, s)
 		sitesReport[s.Name] = len(fs)
 		nsites += len(fs)
